@@ -1,34 +1,50 @@
-"""Statistics vocabulary: which function bumps which counter (discovered from the StatsType constant it passes
-to the single fetch_add wrapper), and which functions read which counter."""
-from core import subexprs
+"""Statistics vocabulary: which function bumps which counter and which functions read which counter, discovered on
+path-sensitive paths (sym.py): a bump function is a function of the statistics type on every path of which exactly one
+`AtomicU64::fetch_add` happens, on the element selected by a *constant* StatsType variant (however many private
+helpers - `add(kind, n)`, `Counter::add(n)` - sit in between); a reader likewise with `load`."""
+from core import subexprs, mentions
 
 
 class StatsModel:
     def __init__(self, ctx):
+        from sym import ipaths
         F = self.F = ctx.facts
-        # the primitive: a function doing fetch_add on an element selected by a StatsType discriminant
         self.prim = None
         self.prim_get = None
-        for name, f in F.fns.items():
-            if f.calls_to("Atomic::<u64>::fetch_add") and any("StatsType" in l["ty"] for l in f.locals[1:f.argc + 1]):
-                self.prim = name
-            if f.calls_to("Atomic::<u64>::load") and any("StatsType" in l["ty"] for l in f.locals[1:f.argc + 1]):
-                self.prim_get = name
         self.bump = {}     # fn name -> (StatsType variant, amount expr over the fn's params)
         self.read = {}     # fn name -> StatsType variant
+        holder = None
+        for name, adt in F.adts.items():
+            if adt["kind"] == "Struct" and any("Counter" in fl["ty"] and ("[" in fl["ty"] or "Vec<" in fl["ty"]) for fl in adt["variants"][0]["fields"]):
+                holder = name
+        self.holder = holder
+
+        def variant_in(e):
+            vs = {x[2] for x in subexprs(e) if x[0] == "agg" and x[1].endswith("StatsType") and x[2]}
+            return vs.pop() if len(vs) == 1 else None
+
+        def param_selected(e):
+            return mentions(e, lambda x: x[0] == "param" and x[1] >= 2)
         for name, f in F.fns.items():
-            cs = [(b, t) for b, t in f.calls() if t["res"] == "item" and t.get("rlocal")]
-            if len(cs) != 1 or len(f.live_blocks()) > 3:
+            if f.kind == "Closure" or not holder or (f.rec.get("self_ty") or "").split("<")[0] != holder:
                 continue
-            b, t = cs[0]
-            if t.get("rpath") == self.prim and self.prim:
-                v = f.op_origin(t["args"][1])
-                if v[0] == "agg" and v[1].endswith("StatsType"):
-                    self.bump[name] = (v[2], f.op_origin(t["args"][2]))
-            if t.get("rpath") == self.prim_get and self.prim_get:
-                v = f.op_origin(t["args"][1])
-                if v[0] == "agg" and v[1].endswith("StatsType"):
-                    self.read[name] = v[2]
+            ps = ipaths(F, f, stop=lambda n: False, depth=3)
+            if not ps:
+                continue
+            adds = [[e for e in p.events if e.generic.endswith("Atomic::<u64>::fetch_add")] for p in ps]
+            loads = [[e for e in p.events if e.generic.endswith("Atomic::<u64>::load")] for p in ps]
+            if all(len(a) == 1 for a in adds) and not any(loads):
+                vs = {variant_in(a[0].args[0]) for a in adds}
+                if len(vs) == 1 and None not in vs:
+                    self.bump[name] = (vs.pop(), adds[0][0].args[1])
+                elif all(param_selected(a[0].args[0]) for a in adds) and any("StatsType" in l["ty"] for l in f.locals[1:f.argc + 1]):
+                    self.prim = name
+            if all(len(l) == 1 for l in loads) and not any(adds):
+                vs = {variant_in(l[0].args[0]) for l in loads}
+                if len(vs) == 1 and None not in vs:
+                    self.read[name] = vs.pop()
+                elif all(param_selected(l[0].args[0]) for l in loads) and any("StatsType" in l_["ty"] for l_ in f.locals[1:f.argc + 1]):
+                    self.prim_get = name
 
     def bumps_of(self, variant):
         return {n for n, (v, a) in self.bump.items() if v == variant}
